@@ -25,8 +25,8 @@ from .extract import DROPPED, REPO, Repo
 from .verify import generate
 
 ROOT = pathlib.Path(__file__).resolve().parent.parent
-EVID = ROOT / "evidence"
-REPLAYS = ROOT / "replays"
+EVID = pathlib.Path(os.environ.get("Y0VC_EVIDENCE_DIR") or (ROOT / "evidence"))
+REPLAYS = (EVID / "replays") if os.environ.get("Y0VC_EVIDENCE_DIR") else ROOT / "replays"
 KNOWN = ROOT / "known_findings.json"
 BASELINE = ROOT / "baseline" / "obligations.json"
 
@@ -199,6 +199,10 @@ def enum_inputs(con, variant, n, rng, limit, selfloops=False):
             return {"kind": kind, "nodes": present, "edges": [(i, j) for i, j in ps if i in pres and j in pres and rng.random() < 0.35]}
         if kind == "pairs":
             return {"kind": "pairs", "pairs": [(i, j) for i, j in pairs_d if rng.random() < 0.3]}
+        if kind == "seq":
+            items = [i for i in range(n) if rng.random() < 0.8]
+            rng.shuffle(items)
+            return {"kind": "seq", "items": items}
         return rng.choice(dom(kind))
     for _ in range(limit):
         m = {"k": n, "order": rng.sample(range(n), n), "interventions": []}
